@@ -443,7 +443,7 @@ def run_C19(ctx):
 
 def proj_read(op, out):
     w = first_word(op)
-    if w in ('read_string', 'read_stream', 'read_file', 'read_chunked'):
+    if w in ('read_string', 'read_stream', 'read_file', 'read_chunked', 'read_eintr'):
         return out.split(' ')[0]
     if w in ('err', 'dump', 'wf', 'write'):
         return out
@@ -513,7 +513,7 @@ def run_C08(ctx):
 
 def proj_err(op, out):
     w = first_word(op)
-    if w in ('read_string', 'read_stream', 'read_file', 'write_file'):
+    if w in ('read_string', 'read_stream', 'read_file', 'write_file', 'read_stream_fail'):
         return out.split(' ')[0]
     if w == 'err':
         return out
@@ -535,9 +535,19 @@ def run_C09(ctx):
     ctx['cov']['exhaustive_histories'] = {'events': [e[0] for e in events], 'max_len': L, 'sequences': len(seqs)}
     # the parser's other failure exit (stack exhaustion, yyparse returns 2): before and after every other event
     deep = ('exhausted-string', [], 'read_string ' + hexs(b'a = ' + b'(' * 10001), '2 %s - 1' % b'memory exhausted'.hex())
-    ev2 = events + [deep]
-    d = len(ev2) - 1
-    seqs2 = [(d,), (1, d), (d, 1), (d, 9)]      # alone, after a syntax error, before a syntax error, before a missing file
+    # an error in the 2nd / 3rd file of a multi-path include (custom include function): the line is that file's own
+    H = hexs
+    multi = ('syntax-in-3rd-file-of-multi-include-l2',
+             ['set_include_fn 1', 'mkfile %s %s' % (H(b'p1.cfg'), H(b'a = 1;\nb = 2;\nc = 3;\n')), 'mkfile %s %s' % (H(b'p2.cfg'), H(b'd = 4;\n')),
+              'mkfile %s %s' % (H(b'p3.cfg'), H(b'e = 5;\nf = ;\n')), 'mkfile %s %s' % (H(b'mt.cfg'), H(b'z = 0;\n@include "p1.cfg|p2.cfg|p3.cfg"\n'))],
+             'read_file ' + H(b'mt.cfg'), '2 %s %s 2' % (b'syntax error'.hex(), b'p3.cfg'.hex()))
+    # the caller's stream fails after delivering a complete valid text: I/O error record
+    iofail = ('failing-stream', [], 'read_stream_fail 0 ' + H(b'a = 1;\nb = 2;\n'), '1 %s - 0' % b'file I/O error'.hex())
+    ev2 = events + [deep, multi, iofail]
+    d = len(events); m = d + 1; io = d + 2
+    # alone, after a syntax error, before a syntax error, before a missing file; the multi-include error and the failing
+    # stream alone, after and before other failures
+    seqs2 = [(d,), (1, d), (d, 1), (d, 9), (m,), (1, m), (m, 2), (io,), (1, io), (io, 1), (3, io, 0), (io, m)]
     e = {}
     correspondence(ctx, [streams.sess_c09(seqs2, ev2, e)], proj_err, streams.oracle_c09(e), 'C09 error information', 'stack-exhaustion')
 
@@ -698,7 +708,7 @@ def run_C18(ctx):
 def run_C13(ctx):
     expect = {}
     def fn(impl, rng, stats):
-        for sc in range(6):
+        for sc in range(7):
             out = impl.do('alloccase %d -1 0' % sc)
             n = int(out.split(' ')[1]) if out.startswith('count ') else 0
             ks = list(range(n)) + [n, n + 5]
@@ -782,6 +792,27 @@ def run_C10_all(ctx):
             impl.do('read_file ' + hexs(b't')); impl.do('err'); impl.do('dump')
             stats['c10:seam'] = stats.get('c10:seam', 0) + 1
     correspondence(ctx, [seams], proj_full, None, 'C10 include seams', 'seams')
+    # config_set_include_func(cfg, NULL) reinstates the default include function (documented): directives keep working
+    def reinstate(impl, rng, stats):
+        for pre in ([], ['set_include_fn 1'], ['set_include_fn 1', 'set_include_fn 0', 'set_include_fn 1']):
+            impl.do('init'); impl.do('mkfile %s %s' % (hexs(b'inc.cfg'), hexs(b'x = 1;\n')))
+            impl.do('mkfile %s %s' % (hexs(b'top.cfg'), hexs(b'@include "inc.cfg"\ny = 2;\n@include "gone.cfg"\n')))
+            for o in pre:
+                impl.do(o)
+            impl.do('set_include_fn 0')
+            impl.do('read_file ' + hexs(b'top.cfg')); impl.do('err'); impl.do('dump')
+            impl.do('read_string ' + hexs(b'@include "inc.cfg"\n')); impl.do('err'); impl.do('dump')
+            stats['c10:reinstate-default-fn'] = stats.get('c10:reinstate-default-fn', 0) + 1
+    def oracle_reinstate(ops, outs):
+        for i, o in enumerate(ops):
+            if o == 'read_string ' + hexs(b'@include "inc.cfg"\n') and i + 2 < len(outs):
+                if outs[i].split(' ')[0] != '1' or '(78,' not in outs[i + 2]:
+                    return i + 2, 'after config_set_include_func(cfg, NULL) an @include directive no longer includes the file: %s' % outs[i + 2][:200]
+            if o == 'read_file ' + hexs(b'top.cfg') and i + 1 < len(outs):
+                if outs[i + 1] != '2 %s %s 3' % (b'cannot open include file'.hex(), b'top.cfg'.hex()):
+                    return i + 1, 'after config_set_include_func(cfg, NULL) a missing include target is not reported as documented: %s' % outs[i + 1]
+        return None
+    correspondence(ctx, [reinstate], proj_full, oracle_reinstate, 'C10 default include function', 'reinstate')
 
 REGISTRY['C10'] = dict(modules=['LibconfigModel.Properties.C10', 'LibconfigModel.Properties.C10Splice', 'LibconfigModel.Properties.C10SpliceTotal'], run=run_C10_all, assumptions=COMMON_ASSUMPTIONS)
 REGISTRY['C11'] = dict(modules=['LibconfigModel.Properties.C11'], run=props_c1011.run_C11, assumptions=COMMON_ASSUMPTIONS)
